@@ -106,14 +106,15 @@ def name_class_rename(name, rng):
     new = prefix + "".join(out)
     # endings that look like a naming convention for something else (`size_t`-like), upper-case names that are a
     # keyword or a directive word in capitals: still ordinary names of their class
-    if lower_snake and not prefix and len(rest) >= 4 and rng.random() < 0.12:
+    if lower_snake and not prefix and len(rest) >= 4 and rng.random() < 0.2:
         new = new[:-2] + rng.choice(["_t", "_s", "_e", "_u", "_p"])
     if rest == rest.upper() and any(c.isalpha() for c in rest) and not prefix and rng.random() < 0.3:
         kws = [k for k in UPPER_WORDS + tool_words() if len(k) == len(rest)]
         if kws:
             new = rng.choice(kws)
-    # a lower-case name that BEGINS with a keyword or a directive word (`ifname`, `format`, `dot`, `intx`)
-    if lower_snake and not prefix and rest[:1].isalpha() and rng.random() < 0.2:
+    # a lower-case name that BEGINS with a keyword or a directive word (`ifname`, `format`, `dot`, `intx`); a name that was
+    # just given a conventional ending keeps it
+    if lower_snake and not prefix and rest[:1].isalpha() and new[-2:] not in ("_t", "_s", "_e", "_u", "_p") and rng.random() < 0.2:
         st = [k for k in KEYWORD_STEMS if len(k) < len(rest)]
         if st:
             k = rng.choice(st)
@@ -127,6 +128,45 @@ def name_class_rename(name, rng):
     if not prefix and new[:2] in ("g_", "s_", "t_", "u_", "e_"):
         return name
     return new
+
+
+def apply_renaming(src, mapping):
+    """rename the IDENTIFIER tokens listed in `mapping` (consistently), nothing else"""
+    tw = tokens_with_spans(src)
+    if tw is None:
+        return None
+    out, prev = [], 0
+    for (t, (a, b)) in tw:
+        out.append(src[prev:a])
+        out.append(mapping[t[3]] if t[0] == "IDENTIFIER" and t[3] in mapping and src[a:b] == t[3] else src[a:b])
+        prev = b
+    out.append(src[prev:])
+    return "".join(out)
+
+
+def affix_renamings(src, name, keywords):
+    """one renaming per (lower-case user identifier of four letters or more, conventional affix): the name keeps its
+    length and class but ends like a type / begins like a keyword — `delta` -> `del_t`, `ifl_a`...; every other name stays"""
+    tw = tokens_with_spans(src)
+    if tw is None:
+        return []
+    guard = name.upper().replace(".", "_")
+    names = sorted({t[3] for (t, _) in tw if t[0] == "IDENTIFIER"} - set(SPECIAL_NAMES) - set(keywords))
+    used = set(names) | set(keywords)
+    out = []
+    for n in names:
+        if n != n.lower() or len(n) < 4 or not n[0].isalpha() or n[:2] in ("g_", "s_", "t_", "u_", "e_") or n.upper() == guard:
+            continue
+        lt = [line_text(src, a).lstrip() for (t, (a, b)) in tw if t[0] == "IDENTIFIER" and t[3] == n]
+        if any(l.startswith("#") and l.lstrip("# \t").startswith("include") for l in lt):
+            continue
+        forms = [n[:-2] + e for e in ("_t", "_s", "_e", "_u", "_p")] + [k + n[len(k):] for k in ("if", "do", "int", "for") if len(k) < len(n)]
+        for f in forms:
+            if f not in used and f != n:
+                new = apply_renaming(src, {n: f})
+                if new and new != src:
+                    out.append((new, {n: f}))
+    return out
 
 
 def renaming(src, name, rng, keywords):
